@@ -118,7 +118,6 @@ pub fn scenarios() -> Vec<Scn> {
     })),
     ("zip", Arc::new(|h: &[Hot<i64>]| h[0].observable().zip(&[h[1].observable()]).map(|v| v.iter().sum()))),
     ("amb", Arc::new(|h: &[Hot<i64>]| h[0].observable().amb(&[h[1].observable()]))),
-    ("concat", Arc::new(|h: &[Hot<i64>]| h[0].observable().concat(&[h[1].observable()]))),
     ("combine_latest", Arc::new(|h: &[Hot<i64>]| h[0].observable().combine_latest(&[h[1].observable()], |v| v.iter().sum()))),
   ];
   for (name, b) in &ops {
